@@ -131,13 +131,14 @@ def eval_format(case):
             if fm.get("subclass"):
                 # the documented subclassing style: BASE_URL class attribute instead of the constructor argument
                 cls = type("F", (URLFormatter,), {"BASE_URL": fm.get("base") if fm.get("base") is not None else base})
-                f = cls(path=fm.get("path"), args=dargs, fragment=fm.get("fragment"))
+                f = cls(path=fm.get("path"), args=dargs, fragment=fm.get("fragment"), ext=fm.get("ext"))
             else:
-                f = URLFormatter(base_url=fm.get("base", base), path=fm.get("path"), args=dargs, fragment=fm.get("fragment"))
+                f = URLFormatter(base_url=fm.get("base", base), path=fm.get("path"), args=dargs, fragment=fm.get("fragment"), ext=fm.get("ext"))
             res = f.format(base_url=(base if fm.get("base") is None and not fm.get("subclass") else None), path=path, args=args, fragment=fragment, ext=ext)
             eff_base = base if fm.get("base") is None else fm["base"]
             eff_path = path if path is not None else fm.get("path")
             eff_frag = fragment if fragment is not None else fm.get("fragment")
+            eff_ext = ext if ext is not None else fm.get("ext")     # every constructor argument is a default for format()
             if args is None:
                 eff_args = dargs
             elif dargs is not None:
@@ -150,7 +151,7 @@ def eval_format(case):
                 out.append(("C20/formatter-call", "__call__ gives %r, format gives %r" % (res2, res)))
         else:
             res = format_url(base, path=path, args=args, fragment=fragment, ext=ext)
-            eff_base, eff_path, eff_frag, eff_args = base, path, fragment, args
+            eff_base, eff_path, eff_frag, eff_args, eff_ext = base, path, fragment, args, ext
     except Exception as e:  # noqa
         return [("C20/raises", "format_url(%r) raised %r" % (case, e))]
     desc = "format_url(%r, path=%r, args=%r, fragment=%r, ext=%r)%s = %r" % (
@@ -171,8 +172,8 @@ def eval_format(case):
         b = eff_base.rstrip("/")
         rest = ptxt.lstrip("/")
         exp_head = b + "/" + rest
-    if ext is not None:
-        exp_head += "." + ext.lstrip(".")
+    if eff_ext is not None:
+        exp_head += "." + eff_ext.lstrip(".")
     if head != exp_head:
         out.append(("C20/format/path", desc + ": part before the query is %r expected %r" % (head, exp_head)))
     exp_frag = None if eff_frag is None else eff_frag.lstrip("#")
@@ -201,7 +202,7 @@ def eval_addarg(case):
     if f1 != f0:
         out.append(("C20/addarg/fragment", desc + ": fragment changed %r -> %r" % (f0, f1)))
     bare = value is None or value is True or case.get("default_value")
-    ambiguous_one = (not bare) and isinstance(value, (int, float)) and value == 1
+    ambiguous_one = False   # 1 / 1.0 are values like any other ('everything else by str()'); only True itself is a bare key
     exp_new = (urlref.dec(name) if not quote else name.encode("utf-8"),
                None if bare else (urlref.dec(str(value)) if not quote else str(value).encode("utf-8")))
     old = [i for i in it0 if i != (b"", None)] if q0 == "" else it0
@@ -303,7 +304,8 @@ def _format_strategy(tier):
     frag = st.sampled_from([None, None, "f", "#f", "##f", "", "a b", "/route?x=1"])
     formatter = st.one_of(st.none(), st.none(), st.fixed_dictionaries({
         "base": st.sampled_from([None, "http://default.org/"]), "path": st.sampled_from([None, "def/p"]),
-        "default_args": st.one_of(st.none(), dict_args), "fragment": st.sampled_from([None, "dfrag"]), "subclass": st.booleans()}))
+        "default_args": st.one_of(st.none(), dict_args), "fragment": st.sampled_from([None, "dfrag"]), "subclass": st.booleans(),
+        "ext": st.sampled_from([None, None, "html", ".php"])}))
 
     def mk(v):
         base_, path_, args_, ext_, frag_, fm = v
